@@ -48,7 +48,9 @@ def check(ctx):
     return objlib.run(ctx, QUICK, THOROUGH, RULE + "; stream roaobj: Roas::create_updates/mode/create_renewal/"
                       "apply_updates called directly (krill::verif::roa_objects) on an evolving Roas value with "
                       "route sets, claimed resources and both thresholds varied per op",
-                      ASSUME, extra_bins=["roaobj"], extra_stream=roaobj)
+                      ASSUME, extra_bins=["roaobj"], extra_stream=roaobj,
+                      # body of Roas::mode regenerated from the source; C01Src: generated definition = model function
+                      translate=[("pure_fns:C01", "PureFns.lean")], extra_modules=["KrillModel.Props.C01Src"])
 
 
 def replay(ctx, data):
